@@ -37,12 +37,21 @@ TRANSLATORS = ['emitter_skeleton']
 
 TRUSTED_BASE = [
     'translate/emitter_skeleton.py (ast -> terms of Events/Syntax.v; fail closed: an unrecognised statement or expression in a '
-    'translated function aborts the translation; ignored: logging, docstrings, asserts without a binding, timestamps, the '
-    'done-callback bookkeeping of TaskAndThreadKeeper) and the meaning Events/Interp.v gives to the trees (generator-based '
-    'context managers stacked as apluggy does; derived fields of TraceCallInfo; no exception except an explicit raise; one '
-    'label = up to and including the next counter call / queue put, then on to the next point where settrace / Pdb decide; '
-    'the environment: filtered() at a trace call, `with _context(..): trace()`, cmdloop iff the item has a command loop, '
-    '_prompt_func per prompt, _on_end by the done-callback)',
+    'translated function aborts the translation.  Dropped without a trace: docstrings, logger calls whose arguments call nothing, '
+    'bare annotations, timestamps.  asserts are translated (the interpreter raises).  PINS by source shape inside the translator '
+    '(not theorems): the event dataclasses of nextline/events.py and TraceCallInfo.__post_init__; the bodies of local_.Factory/_factory, '
+    'pdb_.Factory/_factory (StdInOut / CustomizedPdb wiring), PromptFunc, CmdloopHook, LocalTraceFunc.local_trace_func, '
+    'CustomizedPdb._cmdloop / __init__, PdbInstanceFactory; the done-callback wiring of TaskAndThreadKeeper.context/_on_start '
+    '(SExt tags); class bases, class members, decorators, defaults, init/__init__ bindings, module-level statements of the translated '
+    'files; no other queue_out putter in nextline/spawned)',
+    'the meaning Events/Interp.v gives to the trees: generator-based context managers stacked as apluggy does (trusted, not '
+    'translated); derived fields of TraceCallInfo; one label = up to and including the next counter call / queue put, then on to '
+    'the next point where settrace / Pdb decide; the environment: filtered() at a trace call, `with _context(..): trace()`, '
+    'cmdloop iff the item has a command loop, _prompt_func per prompt, _on_end by the done-callback',
+    'EXCEPTIONS: the interpreter behind C09_tie_same_stream raises nothing but an explicit raise / a failing assert (try/finally = '
+    'sequencing there).  C09_tie_end_in_finally_* and C09_tie_handler_removes_in_finally cover, for each generator hook on its own, '
+    'an exception thrown into it at its first yield.  Not covered: exceptions raised by a hook\'s own statements, by the entry of a '
+    'later-stacked context manager, by hook.prompt; KeyboardInterrupt through catch() in _context; the unwinding order of apluggy',
     'correspondence harness harness/props/c09.py + harness/child.py, child_worker.py (program/policy generators, '
     'event-to-term encoding: payloads interned to integers)',
     'modelled, not verified: Python `with`/`finally`, generator-based context managers, sys.settrace discipline and '
